@@ -230,3 +230,25 @@ func controlConds(fn *ssa.Function) map[*ssa.BasicBlock][]ssa.Value {
 	}
 	return res
 }
+
+// allConds: conditions b is control-dependent on, plus conditions of
+// dominating branches one of whose edges leads only to b's region (this also
+// covers loop-exit tests, on which the code after the loop is not
+// control-dependent in the classical sense).
+func allConds(cc map[*ssa.BasicBlock][]ssa.Value, b *ssa.BasicBlock) []ssa.Value {
+	seen := map[ssa.Value]bool{}
+	var res []ssa.Value
+	for _, c := range cc[b] {
+		if !seen[c] {
+			seen[c] = true
+			res = append(res, c)
+		}
+	}
+	for _, g := range guardsOf(b) {
+		if !seen[g.cond] {
+			seen[g.cond] = true
+			res = append(res, g.cond)
+		}
+	}
+	return res
+}
